@@ -249,6 +249,10 @@ class Driver:
             pt = rp if "Ristretto" in st else ep
             opt = ("en", ((0, ()), (1, (pt,))))
             return {0: self.coll_iter(sc), 1: ("__coll_vals", opt, 2**20)}
+        if nm == "optional_mixed_multiscalar_mul" and tr.endswith("traits::VartimePrecomputedMultiscalarMul"):
+            opt = ("en", ((0, ()), (1, (ep,))))
+            from absint import TOP as _TOP
+            return {0: _TOP, 1: self.coll_iter(sc), 2: self.coll_iter(sc), 3: ("__coll_vals", opt, 2**20)}
         if nm in ("sum", "product") and re.search(r"iter::(Sum|Product)<T>$", tr):
             el = inv.value(st) or (sc if st.endswith("Scalar") else (rp if "Ristretto" in st else ep))
             return {0: self.coll_iter(el)}
